@@ -1117,9 +1117,10 @@ class NestedFrame(pd.DataFrame):
                 layer_cols = [col for col in results_nf.columns if col.startswith(f"{layer}.")]
                 rename_df = results_nf[layer_cols].rename(columns=lambda x: x.split(".", 1)[1])
                 nested_col = pack_lists(rename_df, name=layer)
-                results_nf = results_nf[
-                    [col for col in results_nf.columns if not col.startswith(f"{layer}.")]
-                ].join(nested_col)
+                # the packed column has the index of results_nf itself, row for row: attach it by
+                # position (an index join would multiply the rows that share a label)
+                results_nf = results_nf[[col for col in results_nf.columns if not col.startswith(f"{layer}.")]]
+                results_nf[layer] = nested_col
 
         return results_nf
 
